@@ -27,7 +27,8 @@ FLAGS = list(itertools.product((True, False), (False, True), (False, True)))  # 
 
 
 VARIANTS = ("generic", "zeros", "loud_then_quiet", "outlier", "tiny", "strided", "reversed_view",
-            "bigendian", "via_deepcopy", "via_pickle", "second_call")
+            "bigendian", "via_deepcopy", "via_pickle", "second_call", "generic_fpstrict", "zeros_fpstrict",
+            "loud_then_quiet_fpstrict")
 
 
 def RTOL(bank):
@@ -47,7 +48,7 @@ def _signal(seed, N, variant):
     and a single huge early sample (value-dependent shortcuts such as running sums lose precision
     there); tiny amplitudes around the log floor"""
     x = sig.signal(seed, N)
-    variant = variant.split("+")[0]
+    variant = variant.split("+")[0].replace("_fpstrict", "")
     if variant == "zeros":
         return np.zeros(N)
     if variant == "loud_then_quiet":
@@ -138,7 +139,11 @@ def _eval(pt, seed):
                                                    "%s of the computer raised %s: %s" % (variant, rc[1], rc[2]),
                                                    dict(config=c, N=N, signal=variant)))
                         continue
-                    r = computers.call(rc[1].compute_full, sig.rov(x))
+                    # *_fpstrict: the caller has numpy's floating-point error state set to 'raise'
+                    # (np.seterr(all="raise") is a common debugging setting); a valid signal still
+                    # yields its frames
+                    with np.errstate(all="raise" if variant.endswith("_fpstrict") else None):
+                        r = computers.call(rc[1].compute_full, sig.rov(x))
                 finally:
                     config.LOG_FLOOR_VALUE = old_floor
                 case = dict(config=c, N=N, signal=variant)
@@ -163,7 +168,7 @@ def _eval(pt, seed):
                     nontriv += 1
                 # round-off of an FFT is relative to the LARGEST term of a frame: with a dynamic
                 # range of 1e8..1e12 inside one frame small coefficients carry ~1e-8 relative noise
-                tol = 1e-5 if variant.split("+")[0] in ("loud_then_quiet", "outlier") else RTOL(bank)
+                tol = 1e-5 if variant.split("+")[0].replace("_fpstrict", "") in ("loud_then_quiet", "outlier") else RTOL(bank)
                 if use_log:
                     ok = np.all(np.abs(got - want) <= tol + tol * np.abs(want))
                 else:
@@ -210,7 +215,8 @@ def _replay(case, seed):
     try:
         if floor is not None:
             config.LOG_FLOOR_VALUE = floor
-        r = computers.call(lambda: _route(comp, case["signal"], seed).compute_full(sig.rov(x)))
+        with np.errstate(all="raise" if case["signal"].endswith("_fpstrict") else None):
+            r = computers.call(lambda: _route(comp, case["signal"], seed).compute_full(sig.rov(x)))
     finally:
         config.LOG_FLOOR_VALUE = old_floor
     tags = dict(bank=type(bank).__name__, real=bool(bank.is_real), style=c["style"],
@@ -220,7 +226,7 @@ def _replay(case, seed):
     got = r[1]
     if got.shape != want.shape:
         return core.result([core.violation(dict(tags, what="shape"), "%r vs %r" % (got.shape, want.shape), case)])
-    tol = 1e-5 if case["signal"].split("+")[0] in ("loud_then_quiet", "outlier") else RTOL(bank)
+    tol = 1e-5 if case["signal"].split("+")[0].replace("_fpstrict", "") in ("loud_then_quiet", "outlier") else RTOL(bank)
     if not np.all(np.abs(got - want) <= tol + tol * np.abs(want)):
         bad = np.argwhere(~(np.abs(got - want) <= tol + tol * np.abs(want)))
         return core.result([core.violation(
@@ -374,7 +380,7 @@ def subchecks(tier, seed):
         core.SubCheck(
             "definition", pts, lambda p: _eval(p, seed),
             "real compute_full vs definitional reference at every lattice point; inner loop: "
-            "use_log x use_power x include_energy x N in {0,L//2,L//2+1,L,2L+1,3L+S} (x data/route alphabet {generic, zeros, loud-then-quiet, outlier, tiny, strided view, negative-stride view, big-endian, computer via deepcopy, via pickle round trip, after an earlier compute_full} at N=L and 3L+S); "
+            "use_log x use_power x include_energy x N in {0,L//2,L//2+1,L,2L+1,3L+S} (x data/route alphabet {generic, zeros, loud-then-quiet, outlier, tiny, strided view, negative-stride view, big-endian, computer via deepcopy, via pickle round trip, after an earlier compute_full, numpy error state all='raise' with generic / zero / loud-then-quiet signals} at N=L and 3L+S); "
             "non-trivial = at least one frame produced",
             axes=dict(bank=banks, L=list(Ls), S="{1,2,3,L}", pad=[True, False],
                       style=["causal", "centered", "centered+kaldi"], window=["hamming", "default"]),
